@@ -292,7 +292,7 @@ func runNotExec(execID int, sci any, e *Env) []rec.Ev {
 	x.ctxs = make([]context.Context, sc.NCtx+1)
 	x.cancels = make([]context.CancelFunc, sc.NCtx+1)
 	for i := 1; i <= sc.NCtx; i++ {
-		x.ctxs[i], x.cancels[i] = context.WithCancel(context.Background())
+		x.ctxs[i], x.cancels[i] = withCancelCause(context.Background())
 	}
 	e.R.Add(rec.Ev{"ev": "reset", "exec": execID, "mode": e.Mode})
 	e.Spawn("S", func(g string) {
